@@ -32,6 +32,24 @@ func flipCodeword(m [][]bool, mods [8][2]int, x byte) {
 	}
 }
 
+// codewordValue reads the eight modules of a codeword (most significant bit first); unmask
+// gives the mask bit to remove at (x, y), nil for none.
+func codewordValue(m [][]bool, mods [8][2]int, unmask func(x, y int) bool) byte {
+	var v byte
+	for bit := 0; bit < 8; bit++ {
+		p := mods[bit]
+		b := m[p[1]][p[0]]
+		if unmask != nil && unmask(p[0], p[1]) {
+			b = !b
+		}
+		v <<= 1
+		if b {
+			v |= 1
+		}
+	}
+	return v
+}
+
 type qrSym struct {
 	v     int
 	l     qrref.Level
@@ -104,9 +122,11 @@ func c05QRDamage(r *fw.Rec, s *qrSym, kind int) bool {
 		}
 		idxs := perBlock[b]
 		perm := rng.Perm(len(idxs))
-		if kind == 3 { // extremes: first and last codewords of the block (incl. the long block's extra byte and the last EC byte)
+		if kind == 3 || kind == 7 { // extremes: first and last codewords of the block (incl. the long block's extra byte and the last EC byte)
 			perm = append([]int{0, len(idxs) - 1, 1, len(idxs) - 2}, perm...)
 		}
+		blotFF := rng.Bool()
+		_ = blotFF
 		seen := map[int]bool{}
 		cnt := 0
 		sameMask, synAcc, synJ := byte(1+rng.Intn(255)), 0, rng.Intn(2*maxInt(t, 1))
@@ -122,6 +142,16 @@ func c05QRDamage(r *fw.Rec, s *qrSym, kind int) bool {
 			x := byte(1 + rng.Intn(255))
 			if kind == 4 {
 				x = 0xFF
+			}
+			if kind == 7 { // the codeword reads 0x00 (or 0xFF) afterwards: a blot; the first codewords of the block among them
+				cur := codewordValue(m, s.mods[idxs[pi]], func(x, y int) bool { return qrref.MaskBit(s.mask, x, y) })
+				x = cur
+				if blotFF {
+					x = ^cur
+				}
+				if x == 0 {
+					x = 0x80
+				}
 			}
 			if kind == 5 { // the same error value everywhere, an even number of times: the plain XOR over the block is unchanged
 				x = sameMask
@@ -147,7 +177,7 @@ func c05QRDamage(r *fw.Rec, s *qrSym, kind int) bool {
 			cnt++
 		}
 	}
-	kinds := []string{"t-per-block", "random-below-t", "one-block-at-t", "extreme-positions", "inverted-codewords", "same-error-value-even-count", "one-syndrome-stays-zero"}
+	kinds := []string{"t-per-block", "random-below-t", "one-block-at-t", "extreme-positions", "inverted-codewords", "same-error-value-even-count", "one-syndrome-stays-zero", "codewords-blotted-to-00-or-FF"}
 	ok := s.decodeAndCheck(r, m, fmt.Sprintf("%d damaged codewords (%s, t=%d per block, %d blocks)", len(damaged), kinds[kind], t, nb), "qr.codewords:"+kinds[kind], map[string]interface{}{"damaged_codewords": damaged})
 	if ok {
 		r.Tally("qr_damage_" + kinds[kind])
@@ -308,9 +338,11 @@ func c05DMDamage(r *fw.Rec, d *dmSym, kind int) bool {
 		}
 		idxs := perBlock[b]
 		perm := rng.Perm(len(idxs))
-		if kind == 3 {
+		if kind == 3 || kind == 7 {
 			perm = append([]int{0, len(idxs) - 1, 1, len(idxs) - 2}, perm...)
 		}
+		blotFF := rng.Bool()
+		_ = blotFF
 		seen := map[int]bool{}
 		cnt := 0
 		sameMask, synAcc, synJ := byte(1+rng.Intn(255)), 0, rng.Intn(2*maxInt(t, 1))
@@ -326,6 +358,16 @@ func c05DMDamage(r *fw.Rec, d *dmSym, kind int) bool {
 			x := byte(1 + rng.Intn(255))
 			if kind == 4 {
 				x = 0xFF
+			}
+			if kind == 7 {
+				cur := codewordValue(m, d.mods[idxs[pi]], nil)
+				x = cur
+				if blotFF {
+					x = ^cur
+				}
+				if x == 0 {
+					x = 0x80
+				}
 			}
 			if kind == 5 {
 				x = sameMask
@@ -351,7 +393,7 @@ func c05DMDamage(r *fw.Rec, d *dmSym, kind int) bool {
 			cnt++
 		}
 	}
-	kinds := []string{"t-per-block", "random-below-t", "", "extreme-positions", "inverted-codewords", "same-error-value-even-count", "one-syndrome-stays-zero"}
+	kinds := []string{"t-per-block", "random-below-t", "", "extreme-positions", "inverted-codewords", "same-error-value-even-count", "one-syndrome-stays-zero", "codewords-blotted-to-00-or-FF"}
 	ok := d.decodeAndCheck(r, m, fmt.Sprintf("%d damaged codewords (%s, t=%d per block, %d blocks)", len(damaged), kinds[kind], t, d.s.Blocks), "dm.codewords:"+kinds[kind], map[string]interface{}{"damaged_codewords": damaged})
 	if ok {
 		r.Tally("dm_damage_" + kinds[kind])
@@ -360,7 +402,7 @@ func c05DMDamage(r *fw.Rec, d *dmSym, kind int) bool {
 }
 
 func c05(c *fw.Ctx) {
-	c.Rule("library-written QR symbols of all 160 (version, level) pairs and Data Matrix symbols of all 30 sizes; damage applied as module flips at codeword positions computed by qrref/dmref: per RS block up to t = floor(ec/2) codewords with arbitrary replacement values (all blocks at t, random below t, one block at t, first/last positions incl. the long block's extra byte, fully inverted codewords, the same error value an even number of times, error values chosen so that one syndrome of the block stays zero); thorough: every single codeword position of every block; QR format information: every subset of <= 3 of 15 bits of one copy with an independent random <= 3-bit error in the other copy; version information likewise (18 bits, versions >= 7); histories of damaged symbols with many-then-few error-correction codewords per block on ONE decoder instance; oracle: decoded text identical; distinct = distinct (symbol, damage pattern)")
+	c.Rule("library-written QR symbols of all 160 (version, level) pairs and Data Matrix symbols of all 30 sizes; damage applied as module flips at codeword positions computed by qrref/dmref: per RS block up to t = floor(ec/2) codewords with arbitrary replacement values (all blocks at t, random below t, one block at t, first/last positions incl. the long block's extra byte, fully inverted codewords, the same error value an even number of times, error values chosen so that one syndrome of the block stays zero, codewords - the first of a block among them - that read 0x00 or 0xFF afterwards); thorough: every single codeword position of every block; QR format information: every subset of <= 3 of 15 bits of one copy with an independent random <= 3-bit error in the other copy; version information likewise (18 bits, versions >= 7); histories of damaged symbols with many-then-few error-correction codewords per block on ONE decoder instance; oracle: decoded text identical; distinct = distinct (symbol, damage pattern)")
 	c.Assume("qrref.CodewordModules / dmref.CodewordModules give the module positions of every codeword bit (cross-checked by C07/C08: the same functions build the reference symbols that the library reproduces module for module)")
 	reps := c.Pick(1, 4)
 	for v := 1; v <= 40; v++ {
@@ -375,7 +417,7 @@ func c05(c *fw.Ctx) {
 					if !s.decodeAndCheck(r, s.m, "no damage", "qr.clean", nil) {
 						return
 					}
-					for kind := 0; kind < 7; kind++ {
+					for kind := 0; kind < 8; kind++ {
 						for k := 0; k < 2; k++ {
 							if !c05QRDamage(r, s, kind) {
 								return
@@ -456,7 +498,7 @@ func c05(c *fw.Ctx) {
 				if !d.decodeAndCheck(r, d.m, "no damage", "dm.clean", nil) {
 					return
 				}
-				for _, kind := range []int{0, 1, 3, 4, 5, 6} {
+				for _, kind := range []int{0, 1, 3, 4, 5, 6, 7} {
 					for k := 0; k < 3; k++ {
 						if !c05DMDamage(r, d, kind) {
 							return
